@@ -232,10 +232,25 @@ impl C19 {
         for (i, l) in lits.iter().enumerate() {
             src.push_str(&format!("var v{} = {};\n", i, l));
         }
-        let (_, end) = s.feed(&src);
+        // the literal written directly inside an interpolation, as an argument of String.from and
+        // behind a sign denotes the same number as the literal bound to a variable (whatever the
+        // spelling: leading zeros, a trailing `.0`, more digits than a double holds)
+        for (i, l) in lits.iter().enumerate().take(12) {
+            src.push_str(&format!(
+                "print(\"${{{l}}}\" == String.from(v{i}) && String.from({l}) == \"${{v{i}}}\" && \"<${{{l}}}>\" == \"<\" + String.from(v{i}) + \">\" && -{l} == -v{i});\n",
+                l = l,
+                i = i
+            ));
+        }
+        let (out, end) = s.feed(&src);
         let mut fail = None;
         if !matches!(end, End::Ok(_)) {
             fail = Some(("literal-program-error".to_string(), format!("{:?}\n{}", end, &src[..src.len().min(400)])));
+        } else if let Some(k) = out.iter().position(|l| l != "true") {
+            fail = Some((
+                "literal-in-interpolation-differs".to_string(),
+                format!("literal {}: written inside an interpolation (or as an argument of String.from, or negated) it does not give the text / value of the same literal bound to a variable", lits[k]),
+            ));
         }
         let mut nontrivial = false;
         if fail.is_none() {
